@@ -21,6 +21,8 @@
   The tie between the *columns* and the OS attributes is the snapshot correspondence plus the Python
   oracle that evaluates the documented meaning from `lstat`.
 -/
+import Fsel.Props.C14
+import Fsel.Lemmas.Num
 import Fsel.Model.Eval
 import Fsel.Lemmas.Text
 import Fsel.Lemmas.ParseCond
@@ -65,6 +67,53 @@ theorem int_atom_spec (today : Int) (c : RxCache) (fv v : Variant) (op : Op) (a 
 theorem literal_digits (n : Nat) (h : (n : Int) ≤ i64Max) :
     (Variant.ofSignedString (showNat n) false).toInt = n := by
   simp [Variant.ofSignedString, Variant.toInt, parseI64_showNat n h]
+
+/-- **what a literal with a unit denotes** (`size > 10k`, `size <= 3mb` …): a run of digits followed by a
+    documented unit word is no integer and no float, so `to_int` / `to_float` reach `parse_filesize`, which is
+    number × multiplier by C14's `unit_table` (over the generated ladder).  Hence the atom is the numeric
+    comparison with that byte count (next theorem). -/
+theorem literal_with_unit (n : Nat) (u : Str) (m : Nat) (hum : (u, m) ∈ C14.docUnits) (hfit : ((n * m : Nat) : Int) ≤ i64Max) :
+    (Variant.ofSignedString (showNat n ++ u) false).toInt = (n * m : Nat) ∧
+    (Variant.ofSignedString (showNat n ++ u) false).toFloat = Num.mk ((n * m : Nat) : Rat) true := by
+  have hfit64 : n * m ≤ u64Max := by
+    have : (i64Max : Int) = 9223372036854775807 := rfl
+    have : u64Max = 18446744073709551615 := rfl
+    omega
+  have hpf := C14.unit_table n u m hum hfit64
+  -- every unit word starts with a letter that is no digit, `.`, `e`, `E` or sign
+  have hhead : ∃ c r, u = c :: r ∧ NumL.unitHead c = true := by
+    simp only [C14.docUnits, List.map_cons, List.map_nil, List.mem_cons, Prod.mk.injEq, List.mem_nil_iff, or_false] at hum
+    rcases hum with ⟨rfl, _⟩ | ⟨rfl, _⟩ | ⟨rfl, _⟩ | ⟨rfl, _⟩ | ⟨rfl, _⟩ | ⟨rfl, _⟩ | ⟨rfl, _⟩ | ⟨rfl, _⟩ |
+      ⟨rfl, _⟩ | ⟨rfl, _⟩ | ⟨rfl, _⟩ | ⟨rfl, _⟩ | ⟨rfl, _⟩ <;> exact ⟨_, _, rfl, by decide⟩
+  obtain ⟨c, r, rfl, hc⟩ := hhead
+  have hd : isDigit c = false := by
+    simp only [NumL.unitHead, Bool.and_eq_true, beq_iff_eq] at hc
+    exact hc.1.1.1.1.1
+  have h1 := NumL.parseI64_with_unit n c r hd
+  have h2 := NumL.parseUsize_with_unit n c r hd
+  have h3 := NumL.parseF64_with_unit n c r hc
+  have hbig : ¬ (n * m > 9223372036854775807) := by
+    have : (i64Max : Int) = 9223372036854775807 := rfl
+    omega
+  constructor
+  · simp [Variant.ofSignedString, Variant.toInt, h1, h2, hpf, hbig]
+  · simp [Variant.ofSignedString, Variant.toFloat, h3, hpf]
+
+/-- `size OP <digits><unit>` is the numeric comparison with number × multiplier bytes, for every ordering /
+    equality operator, every documented unit and every number that fits -/
+theorem int_atom_with_unit (today : Int) (c : RxCache) (fv : Variant) (op : Op) (a : Int) (b : Bool)
+    (n : Nat) (u : Str) (m : Nat) (hum : (u, m) ∈ C14.docUnits) (hfit : ((n * m : Nat) : Int) ≤ i64Max)
+    (hty : fv.ty = .int) (ha : fv.toInt = a) (hfx : fv.exact = true)
+    (hsem : numSem op a ((n * m : Nat) : Int) = some b) :
+    compareValues today c fv op (Variant.ofSignedString (showNat n ++ u) false) = .ok (.val b, c) := by
+  obtain ⟨hi, hf⟩ := literal_with_unit n u m hum hfit
+  refine int_atom_spec today c fv _ op a _ b hty ha hfx rfl ?_ hi hsem
+  rw [hf]
+  have hden : (((n * m : Nat) : Rat)).den = 1 := Rat.den_natCast (n * m)
+  simp only [Num.mk, Num.fractNonZero, hden, bne_self_eq_false]
+
+/-- `size > 2k` means more than 2048 bytes; `size <= 3mb` at most 3 000 000 -/
+example : (("k".toList, 1024) ∈ C14.docUnits) ∧ (("mb".toList, 1000 ^ 2) ∈ C14.docUnits) := by decide
 
 /-- a boolean column against a documented boolean word -/
 theorem bool_atom_spec (today : Int) (c : RxCache) (fb : Bool) (lit : Str) (lb : Bool) (hl : strToBool lit = some lb)
